@@ -137,6 +137,7 @@ def gen_arith(rng, tier, escalate):
 def run_arith(c):
     x = _mk(c["W"], c["a"], c["p"])
     try:
+        _ = (hash(x), x == x, int(x.as_decimal), int(x.as_decimal_network))
         r = (x + c["n"]) if c["op"] == 0 else (x - c["n"])
         o = [int(r.as_decimal), int(r.prefixlen)]
     except BaseException:
@@ -180,7 +181,8 @@ def gen_set(rng, tier, escalate):
 
 def run_set(c):
     x = _mk(c["W"], c["a"], c["p"])
-    h0 = hash(x)                      # hashed once before the change (a cached hash must not survive it)
+    # every observer is used once before the change: a value cached by any of them must not survive it
+    h0 = (hash(x), x == x, x < x, x > x, int(x.as_decimal), int(x.as_decimal_network), int(x.prefixlen), int(x), str(x.ip), sorted([x, x])[0] is x)
     try:
         setattr(x, c["name"], c["arg"])
         r = [int(x.as_decimal), int(x.prefixlen), int(x.as_decimal_network)]
